@@ -434,6 +434,39 @@ Proof.
     destruct Hd as [Hd|Hd]; [left; apply Rinv_0_lt_compat; exact Hd|]. rewrite <- Hd, Rinv_0. lra.
 Qed.
 
+(* the documented quantities: with a positive number density, Im b_c <= 0 and sigma_s >= 0 *)
+Theorem spec_nonneg : forall NA l rho lambda,
+  0 < number_density NA l rho -> 0 < lambda -> b_im l <= 0 -> 0 <= sigma_s l ->
+  0 <= rho_im NA l rho lambda /\ 0 <= rho_inc NA l rho /\ 0 <= Sigma_coh NA l rho /\
+  0 <= Sigma_abs NA l rho lambda /\ 0 <= Sigma_inc NA l rho /\ 0 <= t_u NA l rho lambda.
+Proof.
+  intros NA l rho lambda HN Hl Him Hss.
+  assert (Hpi : 0 < PI) by apply PI_RGT_0.
+  assert (Hsa : 0 <= sigma_a l lambda).
+  { rewrite sigma_a_scales_with_wavelength by lra. nra. }
+  assert (Hsc : 0 <= sigma_c l).
+  { unfold sigma_c, fm2_per_barn. apply Rmult_le_pos; [|lra]. apply Rmult_le_pos; [lra|]. nra. }
+  assert (Hsi : 0 <= sigma_i l) by (unfold sigma_i; apply Rmax_r).
+  set (N := number_density NA l rho) in *.
+  assert (HA : 0 < A2_per_barn) by (unfold A2_per_barn; apply Rinv_0_lt_compat; lra).
+  assert (HB : 0 < A_per_cm) by (unfold A_per_cm; lra).
+  assert (HS : forall x, 0 <= x -> 0 <= N * x * A2_per_barn * A_per_cm).
+  { intros x Hx. apply Rmult_le_pos; [|lra]. apply Rmult_le_pos; [|lra]. apply Rmult_le_pos; lra. }
+  repeat split.
+  - unfold rho_im. fold N. unfold micro. apply Rmult_le_pos; [|lra].
+    apply Rmult_le_pos; [|left; apply Rinv_0_lt_compat; lra].
+    apply Rmult_le_pos; [|lra]. apply Rmult_le_pos; lra.
+  - unfold rho_inc. fold N. unfold A_per_fm, micro. apply Rmult_le_pos; [|lra].
+    apply Rmult_le_pos; [|left; apply Rinv_0_lt_compat; lra]. apply Rmult_le_pos; [lra|apply sqrt_pos].
+  - unfold Sigma_coh. fold N. apply HS. exact Hsc.
+  - unfold Sigma_abs. fold N. apply HS. exact Hsa.
+  - unfold Sigma_inc. fold N. apply HS. exact Hsi.
+  - unfold t_u, Sigma_s, Sigma_abs. fold N. unfold Rdiv. rewrite Rmult_1_l.
+    assert (Hd : 0 <= N * sigma_s l * A2_per_barn * A_per_cm + N * sigma_a l lambda * A2_per_barn * A_per_cm).
+    { apply Rplus_le_le_0_compat; apply HS; assumption. }
+    destruct Hd as [Hd|Hd]; [left; apply Rinv_0_lt_compat; exact Hd|]. rewrite <- Hd, Rinv_0. lra.
+Qed.
+
 (* on whole results of the model: imaginary and incoherent SLD, the three cross sections and the
    penetration depth are never negative *)
 Theorem outputs_nonneg : forall D d rho w o ps,
@@ -443,14 +476,6 @@ Theorem outputs_nonneg : forall D d rho w o ps,
 Proof.
   intros D d rho w o ps Hw Hrho Hcell H.
   destruct (compound_refines D d rho w o ps Hw Hrho Hcell H) as (l & Hl & Heq).
-  unfold compound_at in H. destruct (all_some (map (atom_piece D w) d)) as [ps'|]; [|discriminate].
-  cbn [bind] in H. inversion H; subst ps'. clear H. rewrite H1 in *.
-  unfold calc5, compound_parts in H1. rewrite <- H1 in Heq.
-  pose proof (ev_calculate_scattering) as Hc.
-  match type of H1 with calculate_scattering ?N ?lam ?bre ?bim ?ss = _ =>
-    pose proof (Hc N lam bre bim ss) as Hc'; rewrite H1 in Hc' end.
-  (* signs from the spec side *)
-  rewrite Hc' in Heq. clear Hc Hc' H1.
   assert (Hlam : 0 < wl_R w) by (apply (wl_R_pos EF_R_pos); exact Hw).
   destruct Hcell as [Hne Hd].
   assert (Hfacts : forall c, In c l -> 0 < c_n c /\ 0 < c_m c /\ c_im c <= 0 /\ 0 <= c_ss c).
@@ -472,18 +497,18 @@ Proof.
     destruct (Hfacts c (or_introl eq_refl)) as (H1 & _ & _ & H4).
     assert (0 <= sum (fun c0 => c_n c0 * c_ss c0) r) by (apply IH; intros c0 Hin; apply Hfacts; right; exact Hin).
     nra. }
+  assert (Him : b_im l <= 0).
+  { unfold b_im. unfold Rdiv. rewrite <- (Rmult_0_l (/ n_total l)).
+    apply Rmult_le_compat_r; [left; apply Rinv_0_lt_compat; exact Hn|].
+    apply sum_nonpos. intros c Hin. destruct (Hfacts c Hin) as (H1 & _ & H3 & _). nra. }
   assert (HN : 0 < number_density (Q2R NAq) l (Q2R rho)).
   { unfold number_density, cell_volume, A_per_cm. pose proof NA_pos. apply Q2R_pos in Hrho.
     apply Rdiv_lt_0_compat; [exact Hn|]. apply Rmult_lt_0_compat; [|lra]. apply Rmult_lt_0_compat.
     - apply Rdiv_lt_0_compat; assumption.
     - apply Rdiv_lt_0_compat; lra. }
-  pose proof (calc_nonneg (number_density (Q2R NAq) l (Q2R rho)) (wl_R w) (b_re l) (b_im l) (sigma_s l)
-                          (Rlt_le _ _ HN) (Rlt_le _ _ Hlam) Hss) as Hcn.
-  rewrite <- (model_N_is (Q2R NAq) (Q2R rho) l) in Hcn;
-    [|apply Rgt_not_eq; exact NA_pos|apply Rgt_not_eq; apply Q2R_pos; exact Hrho|apply Rgt_not_eq; exact Hm].
-  rewrite (calc_is_spec (Q2R NAq) l (Q2R rho) (wl_R w)) in Hcn; try assumption;
-    [|exact NA_pos|apply Q2R_pos; exact Hrho|apply sum_nonpos; intros c Hin; destruct (Hfacts c Hin) as (H1 & _ & H3 & _); nra].
-  rewrite <- Heq in Hcn. unfold outs_list in Hcn. cbn [map] in Hcn. exact Hcn.
+  pose proof (spec_nonneg (Q2R NAq) l (Q2R rho) (wl_R w) HN Hlam Him Hss) as Hsp.
+  unfold outs_list, outputs in Heq. cbn [map] in Heq.
+  injection Heq as E1 E2 E3 E4 E5 E6 E7. rewrite E2, E3, E4, E5, E6, E7. exact Hsp.
 Qed.
 
 (* ------------------------------------------------------------------ vectors *)
